@@ -20,8 +20,9 @@
 (* (continued fraction) comparison RatLe, which never forms a product, so  *)
 (* everything stays inside TLC's 32-bit integers.                          *)
 (*                                                                         *)
-(* The same operators (Adm, Asgs, Upd, DFx, CostFx, InBox ...) are used,   *)
-(* unchanged, by Trace_KMeans on results recorded from the real code.      *)
+(* The same operators (Tab / AdmRow, AsgsT, Upd, CostT, InBox, ShiftSqFx    *)
+(* ...) are used, unchanged, by Trace_KMeans on results recorded from the  *)
+(* real code.                                                              *)
 (***************************************************************************)
 EXTENDS Integers, Sequences, FiniteSets, TLC
 
